@@ -43,6 +43,15 @@ Proof.
 Qed.
 Print Assumptions C05_create_installs_first.
 
+(* "... and no other message causes any installation": an install among the effects of a step comes from
+   a ready, or from a create whose address was not known, and goes to the sender's address *)
+From Portus Require Import OriginFacts.
+Theorem C05_nothing_else_installs : forall cfg user send_ok st a m st' es b u,
+  step cfg user send_ok st a m = SOk st' es -> In (EInstall b u) es ->
+  b = a /\ ((exists r, m = MRdy r) \/ (exists c, m = MCr c /\ known st a = false)).
+Proof. exact only_ready_and_first_create_install. Qed.
+Print Assumptions C05_nothing_else_installs.
+
 (* the compiled set is installed whole or not at all: when one offered program does not compile, or its
    install message cannot be encoded, the run ends with an error before the receive loop; the only
    effect is the close of the transport, so no datapath is sent a partial set and no handle exists
